@@ -66,6 +66,31 @@ func manyRunes(n int) []string {
 // GenLarge returns the patterns, the unit picker, texts worth querying and keys worth
 // searching, and a label for the shape.
 func GenLarge(r *core.Rand, tier string) (pats []Seq, u Unit, texts []Seq, keys []Seq, shape string) {
+	if r.Chance(9) {
+		// a text (and results) beyond 64 KB: long runs of a filler that occurs in no pattern,
+		// a few dozen occurrences in between (results ≥ 64 KB for Replace / ReplaceWithMask)
+		u = MainUnit
+		pats = GenPatterns(r, u, r.Range(1, 4), 3)
+		ne := NonEmpty(pats)
+		var t Seq
+		size := 0
+		for size < 65536+r.Intn(3000) {
+			for k := r.Range(600, 2500); k > 0; k-- {
+				t = append(t, "z")
+				size++
+			}
+			if len(ne) > 0 {
+				p := ne[r.Intn(len(ne))]
+				t = append(t, p...)
+				size += len(p.Bytes())
+			}
+			if r.Chance(30) {
+				t = append(t, "é")
+				size += 2
+			}
+		}
+		return pats, u, []Seq{t}, []Seq{{}}, "huge-text"
+	}
 	switch r.Pick(28, 24, 24, 24) {
 	case 0: // wide node: n children under the root (or under a one-rune prefix)
 		n := pickSize(r, tier, 260, 300)
